@@ -92,6 +92,8 @@ def copy_tree(src, dst):
 
 def snapshot(root):
     """path -> ('d',) | ('f', bytes, mtime_ns, inode)"""
+    if not os.path.isdir(root):
+        return {}            # the universe root itself was removed: every oracle that compares trees will say so
     t = {root: ('d',)}
     stack = [root]
     while stack:
@@ -103,9 +105,14 @@ def snapshot(root):
                     t[p] = ('d',)
                     stack.append(p)
                 else:
-                    st = e.stat(follow_symlinks=False)
-                    with open(p, 'rb') as f:
-                        t[p] = ('f', f.read(), st.st_mtime_ns, st.st_ino)
+                    # a symbolic link to a regular file is, for the library, that file (stat and open follow links);
+                    # a dangling link does not exist for it
+                    try:
+                        st = os.stat(p)
+                        with open(p, 'rb') as f:
+                            t[p] = ('f', f.read(), st.st_mtime_ns, st.st_ino)
+                    except OSError:
+                        continue            # dangling link (target gone or below a non-directory)
     return t
 
 
